@@ -203,6 +203,19 @@ def call(inst, cfg, kktsolver_obj=None):
     kkt = cfg.get('kkt')
     if kkt == 'ref':
         kkt = kktsolver_obj if kktsolver_obj is not None else ref_kkt_qp(inst)
+    # how the option set reaches the solver: per call (options=..., the default) or through the global solvers.options with
+    # no options= keyword at all (cfg['via'] == 'global'); cfg['prelude'] = option set of a call made immediately before
+    # through the same entry point with per-call options (its result is discarded): the judged call must not inherit it
+    solvers.options.clear()
+    if cfg.get('prelude') is not None:
+        call(inst, dict(cfg, prelude=None, via=None, opts=cfg['prelude']))
+        if cfg.get('via') != 'global':
+            solvers.options.clear()          # (a leak into the globals is then only visible to the 'global' route)
+    okw = {'options': opts}
+    if cfg.get('via') == 'global':
+        for k_, v_ in opts.items():
+            solvers.options.setdefault(k_, v_)   # what a leaking prelude left behind stays in place
+        okw = {}
     iv = initvals(inst, cfg)
     d = a['dims']
     N = R.cdim(d)
@@ -210,17 +223,17 @@ def call(inst, cfg, kktsolver_obj=None):
         if cfg.get('entry', 'coneqp') == 'coneqp':
             if cfg.get('operators'):
                 fP, fG, fA, calls = operators(inst)
-                sol = solvers.coneqp(fP, a['q'], fG, a['h'], d, fA, a['b'], initvals=iv, kktsolver=kkt, options=opts)
+                sol = solvers.coneqp(fP, a['q'], fG, a['h'], d, fA, a['b'], initvals=iv, kktsolver=kkt, **okw)
             elif cfg.get('noG') and N == 0:
-                sol = solvers.coneqp(a['P'], a['q'], A=a['A'], b=a['b'], initvals=iv, kktsolver=kkt, options=opts)
+                sol = solvers.coneqp(a['P'], a['q'], A=a['A'], b=a['b'], initvals=iv, kktsolver=kkt, **okw)
             else:
                 sol = solvers.coneqp(a['P'], a['q'], a['G'], a['h'], d, a['A'], a['b'], initvals=iv, kktsolver=kkt,
-                                     options=opts)
+                                     **okw)
         else:
             if cfg.get('noG') and N == 0:
-                sol = solvers.qp(a['P'], a['q'], A=a['A'], b=a['b'], kktsolver=kkt, initvals=iv, options=opts)
+                sol = solvers.qp(a['P'], a['q'], A=a['A'], b=a['b'], kktsolver=kkt, initvals=iv, **okw)
             else:
-                sol = solvers.qp(a['P'], a['q'], a['G'], a['h'], a['A'], a['b'], kktsolver=kkt, initvals=iv, options=opts)
+                sol = solvers.qp(a['P'], a['q'], a['G'], a['h'], a['A'], a['b'], kktsolver=kkt, initvals=iv, **okw)
     except Exception as e:
         return e, a
     return sol, a
